@@ -72,6 +72,7 @@ func (repo *BlockRepository) Load(ctx context.Context) error {
 	// Clear
 	repo.height = -1
 	repo.heights = make(map[bitcoin.Hash32]int)
+	repo.lastHeaders = make([]wire.BlockHeader, 0, blocksPerKey)
 
 	// Build hash height map from genesis and load lastHeaders
 	previousFileSize := -1
@@ -232,7 +233,7 @@ func (repo *BlockRepository) Hash(ctx context.Context, height int) (*bitcoin.Has
 
 // This function is internal and doesn't lock the mutex so it can be internally without double locking.
 func (repo *BlockRepository) getHash(ctx context.Context, height int) (*bitcoin.Hash32, error) {
-	if height > repo.height {
+	if height < 0 || height > repo.height {
 		return nil, errors.New("Hash height beyond tip") // We don't know the hash for that height yet
 	}
 
@@ -269,7 +270,7 @@ func (repo *BlockRepository) Time(ctx context.Context, height int) (uint32, erro
 
 // This function is internal and doesn't lock the mutex so it can be internally without double locking.
 func (repo *BlockRepository) getTime(ctx context.Context, height int) (uint32, error) {
-	if height > repo.height {
+	if height < 0 || height > repo.height {
 		return 0, nil // We don't know the hash for that height yet
 	}
 
@@ -309,7 +310,7 @@ func (repo *BlockRepository) Header(ctx context.Context, height int) (*wire.Bloc
 
 // This function is internal and doesn't lock the mutex so it can be internally without double locking.
 func (repo *BlockRepository) getHeader(ctx context.Context, height int) (*wire.BlockHeader, error) {
-	if height > repo.height {
+	if height < 0 || height > repo.height {
 		return nil, ErrInvalidHeight // We don't know the header for that height yet
 	}
 
@@ -344,56 +345,101 @@ func (repo *BlockRepository) Revert(ctx context.Context, height int) error {
 	if height > repo.height {
 		return errors.New(fmt.Sprintf("Revert height %d above current height %d", height, repo.height))
 	}
+	if height < 0 {
+		return errors.New(fmt.Sprintf("Revert height %d below zero", height))
+	}
+	if height == repo.height {
+		return nil // Nothing to revert
+	}
 
-	// Revert heights map
+	// Collect the hashes being removed. The heights map is only updated after all storage
+	// operations have succeeded so a failed revert leaves the repository unchanged.
+	removedHashes := make([]bitcoin.Hash32, 0, repo.height-height)
 	for removeHeight := repo.height; removeHeight > height; removeHeight-- {
 		hash, err := repo.getHash(ctx, removeHeight)
 		if err != nil {
 			return errors.Wrap(err, "Failed to revert block heights map")
 		}
-		delete(repo.heights, *hash)
+		removedHashes = append(removedHashes, *hash)
 	}
 
-	// Height of last block of latest full file
-	fullFileEndHeight := (((repo.height) / blocksPerKey) * blocksPerKey) - 1
-	revertedHeight := fullFileEndHeight
+	// Determine the headers of the file that will be the latest after the revert. The current
+	// latest file is only reliably in the cache since it might not have been saved yet.
+	lastFile := repo.height / blocksPerKey
+	newLastFile := height / blocksPerKey
+	newCount := (height % blocksPerKey) + 1
+	newHeaders := make([]wire.BlockHeader, 0, blocksPerKey)
+	if newLastFile == lastFile {
+		newHeaders = append(newHeaders, repo.lastHeaders[:newCount]...)
+	} else {
+		headers, err := repo.read(ctx, height)
+		if err != nil {
+			return errors.Wrap(err, fmt.Sprintf("Failed to read block file to truncate : %s",
+				repo.buildPath(height)))
+		}
+		if len(headers) != blocksPerKey {
+			return errors.New(fmt.Sprintf("Invalid block file (count %d) : %s", len(headers),
+				repo.buildPath(height)))
+		}
+		newHeaders = append(newHeaders, headers[:newCount]...)
+	}
 
-	// Remove any files that need completely removed.
-	for ; revertedHeight >= height; revertedHeight -= blocksPerKey {
-		path := repo.buildPath(revertedHeight + blocksPerKey)
-		if err := repo.store.Remove(ctx, path); err != nil {
+	// Remove any files that need completely removed, newest first so the files in storage are
+	// always a contiguous set of full files followed by at most one partial file.
+	type removedFile struct {
+		path string
+		data []byte
+	}
+	var removedFiles []removedFile
+	restore := func() {
+		// Put back the full files that were removed so that heights not in the cache can still be
+		// read. Oldest first to keep the files contiguous.
+		for i := len(removedFiles) - 1; i >= 0; i-- {
+			repo.store.Write(ctx, removedFiles[i].path, removedFiles[i].data, nil)
+		}
+	}
+	for file := lastFile; file > newLastFile; file-- {
+		path := repo.buildPath(file * blocksPerKey)
+		if file != lastFile {
+			// This file is not in the cache, so keep its data in case the revert fails.
+			data, err := repo.store.Read(ctx, path)
+			if err != nil {
+				restore()
+				return errors.Wrap(err, fmt.Sprintf("Failed to read block file for revert : %s", path))
+			}
+			removedFiles = append(removedFiles, removedFile{path: path, data: data})
+		}
+		if err := repo.store.Remove(ctx, path); err != nil &&
+			!(file == lastFile && errors.Cause(err) == storage.ErrNotFound) {
+			// The latest file might not have been saved yet.
+			if file != lastFile {
+				removedFiles = removedFiles[:len(removedFiles)-1]
+			}
+			restore()
 			return errors.Wrap(err, fmt.Sprintf("Failed to remove block file for revert : %s", path))
 		}
 	}
 
-	// Partially revert last remaining file if necessary. Otherwise just load it into cache.
-	path := repo.buildPath(revertedHeight + blocksPerKey)
-	newCount := height - revertedHeight
-	data, err := repo.store.Read(ctx, path)
-	if err != nil {
-		return errors.Wrap(err, fmt.Sprintf("Failed to read block file to truncate : %s", path))
-	}
-
-	if newCount < blocksPerKey && len(data) > wire.MaxBlockHeaderPayload*newCount {
-		data = data[:wire.MaxBlockHeaderPayload*newCount] // Truncate data
-
-		// Re-write file with truncated data
-		if err := repo.store.Write(ctx, path, data, nil); err != nil {
-			return errors.Wrap(err, fmt.Sprintf("Failed to re-write block file to truncate : %s", path))
-		}
-	}
-
-	// Cache needs to be reset with last file's state.
-	repo.lastHeaders = make([]wire.BlockHeader, 0, blocksPerKey)
+	// Write the new latest file.
+	data := make([]byte, 0, wire.MaxBlockHeaderPayload*len(newHeaders))
 	buf := bytes.NewBuffer(data)
-	header := wire.BlockHeader{}
-	for buf.Len() > 0 {
-		err := header.Deserialize(buf)
-		if err != nil {
-			return errors.Wrap(err, fmt.Sprintf("Failed to parse latest block data during truncate : %s", path))
+	for _, header := range newHeaders {
+		if err := header.Serialize(buf); err != nil {
+			restore()
+			return errors.Wrap(err, "Failed to write header")
 		}
-		repo.lastHeaders = append(repo.lastHeaders, header)
 	}
+	path := repo.buildPath(height)
+	if err := repo.store.Write(ctx, path, buf.Bytes(), nil); err != nil {
+		restore()
+		return errors.Wrap(err, fmt.Sprintf("Failed to re-write block file to truncate : %s", path))
+	}
+
+	// Update cache
+	for _, hash := range removedHashes {
+		delete(repo.heights, hash)
+	}
+	repo.lastHeaders = newHeaders
 	repo.height = height
 	return nil
 }
